@@ -14,7 +14,11 @@ PROP = {
                   "holds exactly the commands whose PLog write took effect, once each, in order, with the rows, IDs and offset "
                   "of their replies (success => in all stores, 4xx or PLog write without effect => in none, later failure => "
                   "completed by recovery); log entries never change once written; a clean insert after any history succeeds; "
-                  "exactly one reply per command; the theorems are stated for the code as it is through reflexivity side "
+                  "a command is in the log exactly when its PLog write took effect; exactly one reply per command; two recorded "
+                  "deviations each with a refutation witness and the partial theorem beside it (C01-F2: a PLog write failing "
+                  "after its effect is answered 5xx and applied; C01-F3: a re-applied deactivation does not reach sync "
+                  "projectors subscribed AFTER DEACTIVATE only - the consistency theorems cover every other projector); "
+                  "the theorems are stated for the code as it is through reflexivity side "
                   "conditions on two shape flags the translator reads from the Go source (putPLog returns the error - "
                   "F11, repaired; the sync actualizer's flush loop stops at the first error), each with a refutation "
                   "witness for the flag-false variant; the model is tied to the real command processor by replaying observed scenarios (replies, "
@@ -33,7 +37,8 @@ PROP = {
             "record, duplicate raw IDs), processor restarts (processor only / everything above the storage) at command "
             "boundaries, per command a fault plan over (PLog | records | view | WLog) x k-th write x (before | after | "
             "exists), three sync projectors with a view each (k-th view write = the flush of the k-th projector in "
-            "the actualizer's map order), then one clean insert and the read-back of PLog, WLogs, records and every view; quick: no fault + every single fault on a fixed 3-command history at trust "
+            "the actualizer's map order) - or, in a sixth of the scenarios, the application variant with ONE sync projector "
+            "subscribed AFTER DEACTIVATE only -, then one clean insert and the read-back of PLog, WLogs, records and every view; quick: no fault + every single fault on a fixed 3-command history at trust "
             "level 0 (each projector's view write in turn), the faults of its richest command at levels 1 and 2, 70 pairs "
             "(fault, then fault during the next command's recovery), 80 cases restart-at-a-boundary + fault in the "
             "recovery or after it, then random "
